@@ -510,7 +510,12 @@ def install(symmpi=False, hexmodel=True, lazyhex=False):
 
 
 def selftest():
-    return {'S4': s4_selftest(), 'S5': s5_selftest(), 'S6': s6_selftest()}
+    out = {'S4': s4_selftest(), 'S6': s6_selftest()}
+    try:
+        out['S5'] = s5_selftest()
+    except Exception as e:      # the MPI class of the tree under test no longer has the shape (or the behaviour) the symbolic twin is rebuilt from:
+        out['S5'] = 'UNAVAILABLE: %s: %s' % (type(e).__name__, e)      # obligations that ask for it run on the real class instead (see vlib.main)
+    return out
 
 
 if __name__ == '__main__':
